@@ -2,6 +2,7 @@ package reqresp
 
 import (
 	"encoding/binary"
+	"math"
 	"errors"
 	"fmt"
 	"net"
@@ -43,6 +44,41 @@ type srvLog struct {
 	mu     sync.Mutex
 	serial int64
 	events []*srvEvent
+	// base is added to the serial wherever the stamp is an integer of the
+	// local-state-query results (special values: beyond the era table, 2^16, 2^31,
+	// 2^32, 2^53, 2^62 neighbourhoods); top counts chain-point slots down from 2^64-1
+	base int64
+	top  bool
+	// slowKind: the first local-state-query query of that kind is answered only
+	// after slowDelay (longer than the client's query timeout of that history)
+	slowKind  string
+	slowDelay time.Duration
+	slowDone  bool
+}
+
+func (l *srvLog) stamp(kind string, serial int64) uint64 {
+	if kind == "point" && l.top {
+		return math.MaxUint64 - uint64(serial)
+	}
+	return uint64(l.base + serial)
+}
+
+func (l *srvLog) unstamp(kind string, v uint64) int64 {
+	if kind == "point" && l.top {
+		return int64(math.MaxUint64 - v)
+	}
+	return int64(v) - l.base
+}
+
+// takeSlow reports (once) that the query of this kind is the slow one.
+func (l *srvLog) takeSlow(kind string) time.Duration {
+	l.mu.Lock()
+	defer l.mu.Unlock()
+	if l.slowKind == "" || l.slowDone || kind != l.slowKind {
+		return 0
+	}
+	l.slowDone = true
+	return l.slowDelay
 }
 
 func (l *srvLog) add(proto, kind string, stamped bool, arg int64, ok bool) *srvEvent {
@@ -85,8 +121,8 @@ func raw(n *xcbor.Node) cbor.RawMessage { return cbor.RawMessage(n.Encode()) }
 // lsqResult builds the result of a query of the given kind stamped with serial
 // s, in the shape the client API decodes (shapes read off the result types in
 // protocol/localstatequery/queries.go).
-func lsqResult(kind string, s int64) *xcbor.Node {
-	u := xcbor.U(uint64(s))
+func lsqResult(kind string, stamp uint64, s int64) *xcbor.Node {
+	u := xcbor.U(stamp)
 	switch kind {
 	case "era":
 		return u
@@ -101,7 +137,7 @@ func lsqResult(kind string, s int64) *xcbor.Node {
 	case "history":
 		be := func(v uint64) *xcbor.Node { return xcbor.A(xcbor.U(v), xcbor.U(v), xcbor.U(v)) }
 		params := xcbor.A(xcbor.U(432000), xcbor.U(1000), xcbor.A(xcbor.U(0), xcbor.U(129600), xcbor.A(xcbor.U(0))), xcbor.U(2160))
-		return xcbor.A(xcbor.A(be(uint64(s)), be(uint64(s)+1), params))
+		return xcbor.A(xcbor.A(be(stamp), be(stamp+1), params))
 	}
 	panic("lsqResult: " + kind)
 }
@@ -165,9 +201,12 @@ func lsqServerConfig(l *srvLog) localstatequery.Config {
 		localstatequery.WithQueryFunc(func(_ localstatequery.CallbackContext, q localstatequery.QueryWrapper) (any, error) {
 			kind, era := lsqQueryKind(q)
 			e := l.add("lsq", kind, true, era, true)
+			if d := l.takeSlow(kind); d > 0 {
+				time.Sleep(d)
+			}
 			switch kind {
 			case "era", "start", "blockno", "point", "epoch", "history":
-				return raw(lsqResult(kind, e.Serial)), nil
+				return raw(lsqResult(kind, l.stamp(kind, e.Serial), e.Serial)), nil
 			}
 			return nil, errors.New("harness server: unexpected query " + kind)
 		}),
@@ -272,7 +311,17 @@ func (p *txPool) tx(s int64, i int) *poolTx {
 	return t
 }
 
-func snapCapacity(s int64) uint32 { return uint32(100000 + s) }
+// snapCapacity: the capacity stamps the snapshot; the two extreme values of the
+// 32-bit field are part of the cycle.
+func snapCapacity(s int64) uint32 {
+	switch {
+	case s%5 == 0:
+		return math.MaxUint32
+	case s%7 == 0:
+		return 0
+	}
+	return uint32(100000 + s)
+}
 
 func txmonServerConfig(l *srvLog) localtxmonitor.Config {
 	return localtxmonitor.NewConfig(
@@ -340,14 +389,21 @@ func ltxsubServerConfig(l *srvLog) localtxsubmission.Config {
 	)
 }
 
+// pshCount is how many peers the harness server shares for a requested amount
+// (0..3; an empty answer carries no stamp).
+func pshCount(amount int) int { return amount % 4 }
+
 // ---- peer-sharing server ---------------------------------------------------------------------
 
 func pshServerConfig(l *srvLog) peersharing.Config {
 	return peersharing.NewConfig(
 		peersharing.WithShareRequestFunc(func(_ peersharing.CallbackContext, amount int) ([]peersharing.PeerAddress, error) {
 			e := l.add("psh", "getpeers", true, int64(amount), true)
-			n := amount%3 + 1
+			n := pshCount(amount)
 			out := make([]peersharing.PeerAddress, n)
+			if n == 0 && amount%8 == 0 {
+				out = nil // nil instead of an empty list
+			}
 			for i := range out {
 				out[i] = peersharing.PeerAddress{
 					IP:   net.IPv4(10, byte(e.Serial>>16), byte(e.Serial>>8), byte(e.Serial)),
@@ -429,7 +485,7 @@ func rawLsqServer(h *half, l *srvLog, stop chan struct{}) error {
 				return fmt.Errorf("raw lsq server: unknown query %x", msg)
 			}
 			e := l.add("lsq", kind, true, era, true)
-			err = send(xcbor.A(xcbor.U(4), lsqResult(kind, e.Serial)))
+			err = send(xcbor.A(xcbor.U(4), lsqResult(kind, l.stamp(kind, e.Serial), e.Serial)))
 		default:
 			return fmt.Errorf("raw lsq server: unexpected message %x", msg)
 		}
